@@ -1,5 +1,77 @@
 #!/bin/sh
-# thorough tier: the same rules (they are exhaustive over the code's paths already), plus the
-# checker self-validation replay over /verif/variants for this property, recorded in the evidence.
+# thorough tier for one property:
+#  1. the property's rules on /repo's current tree (they are exhaustive over the code's paths);
+#  2. checker self-validation: every break-variant registered for this property must make the check
+#     fire, every keep-variant must leave this property's check silent (scratch copies under mktemp,
+#     removed after each); a variant whose patch no longer applies to a changed tree is skipped;
+#  3. for C01/C13: the BCE completeness cross-check of the panic-site inventory.
+# The verdict on /repo comes from step 1 only; steps 2–3 are recorded in the evidence
+# (coverage.checker_validation) and make the command fail with exit 3 only when they reveal a defect of
+# the CHECKER on the unchanged tree layout (never a VIOLATION line).
 ID="$1"
-exec /verif/bin/lucheck -repo /repo -verif /verif -property "$ID" -tier thorough -evidence /verif/evidence/"$ID".json
+X=$(mktemp /tmp/lucthorough.XXXXXX.json); trap 'rm -f "$X"' EXIT
+python3 - "$ID" > "$X" <<'PY'
+import json, subprocess, sys, concurrent.futures as cf
+pid = sys.argv[1]
+idx = json.load(open('/verif/variants/index.json'))
+def run(v):
+    r = subprocess.run(["/verif/tools/variant.sh", f"/verif/variants/{v['name']}.patch", pid], capture_output=True, text=True)
+    out = r.stdout
+    if "APPLY-FAIL" in out or "BUILD-FAIL" in out:
+        return v["name"], "skipped"
+    fired = "VIOLATION" in out
+    return v["name"], ("fired" if fired else "silent")
+vs = [v for v in idx if v["kind"] == "keep" or v["props"] == pid]
+res = {"break_fired": 0, "break_total": 0, "keep_silent": 0, "keep_total": 0, "skipped": 0, "problems": []}
+with cf.ThreadPoolExecutor(max_workers=8) as ex:
+    for (name, st), v in zip(ex.map(run, vs), vs):
+        if st == "skipped":
+            res["skipped"] += 1
+        elif v["kind"] == "keep":
+            res["keep_total"] += 1
+            res["keep_silent"] += st == "silent"
+            if st != "silent":
+                res["problems"].append(name + ": false alarm")
+        else:
+            res["break_total"] += 1
+            res["break_fired"] += st == "fired"
+            if st != "fired":
+                res["problems"].append(name + ": not detected")
+# seeded changes written by independent sub-agents for this property (kept under /verif/seeded)
+import glob, os
+seeds = sorted(glob.glob(f"/verif/seeded/{pid}-*/patch.diff"))
+sres = {"seeded_total": 0, "seeded_fired": 0, "seeded_skipped": 0, "seeded_missed": []}
+def runseed(p):
+    r = subprocess.run(["/verif/tools/variant.sh", p, pid], capture_output=True, text=True)
+    if "APPLY-FAIL" in r.stdout or "BUILD-FAIL" in r.stdout:
+        return p, "skipped"
+    return p, ("fired" if "VIOLATION" in r.stdout else "silent")
+with cf.ThreadPoolExecutor(max_workers=8) as ex:
+    for p, st in ex.map(runseed, seeds):
+        name = os.path.basename(os.path.dirname(p))
+        if st == "skipped":
+            sres["seeded_skipped"] += 1
+        else:
+            sres["seeded_total"] += 1
+            if st == "fired":
+                sres["seeded_fired"] += 1
+            else:
+                sres["seeded_missed"].append(name)
+res.update(sres)
+out = {"checker_validation": res}
+if pid in ("C01", "C13"):
+    b = subprocess.run(["/verif/tools/bce_crosscheck.sh", "/repo"], capture_output=True, text=True)
+    out["bce_crosscheck"] = b.stdout.strip()
+    if b.returncode != 0:
+        res["problems"].append("BCE cross-check failed")
+print(json.dumps(out))
+PY
+/verif/bin/lucheck -repo /repo -verif /verif -property "$ID" -tier thorough -extra "$X" -evidence /verif/evidence/"$ID".json
+rc=$?
+python3 - "$X" <<'PY'
+import json, sys
+d = json.load(open(sys.argv[1]))
+cv = d.get("checker_validation", {})
+print("checker validation:", json.dumps(cv), d.get("bce_crosscheck", ""))
+PY
+exit $rc
